@@ -70,7 +70,7 @@ func genProxiedRequest(r *core.Rand, id, limit int) ReqSpec {
 	failing := r.Chance(2, 5)
 	if failing {
 		h.Code = 1 + r.Intn(16)
-		h.Msg = r.PickS("backend says no", "x", "denied: quota", "a/b c")
+		h.Msg = r.PickS("backend says no", "x", "denied: quota", "a/b c", "100% sure", "a%b", "caf\u00e9 closed", "tab\there", "%", "ends in %")
 		h.Details = r.Chance(1, 2)
 	}
 	switch mi.Shape() {
@@ -109,6 +109,9 @@ func genProxiedRequest(r *core.Rand, id, limit int) ReqSpec {
 				h.Steps = append(h.Steps, HStep{Op: "recv"})
 			}
 			h.Steps = append(h.Steps, HStep{Op: "sendall"})
+			// ... possibly to a client that only half-closes once it has seen
+			// the call end (a direct call to the backend ends right away)
+			sp.LateClose = r.Chance(1, 2) && len(sp.Msgs) >= 2
 		case 4: // after k responses
 			h.Steps = []HStep{{Op: "recv"}}
 			for i := r.Intn(len(h.Resps) + 1); i > 0; i-- {
